@@ -199,4 +199,5 @@ func main() {
 	p := load(*repo)
 	writeIfChanged(filepath.Join(*out, "Facts.lean"), genFacts(p))
 	writeIfChanged(filepath.Join(*out, "Values.lean"), genValues(p))
+	writeIfChanged(filepath.Join(*out, "SpecFacts.lean"), genSpecFacts(p))
 }
